@@ -69,8 +69,8 @@ func newTable(
 	lowCardOutputCache outputIndex,
 ) *table {
 	for i := range outputValues {
-		outputValues[i].lhT = -1
-		outputValues[i].rhT = -1
+		outputValues[i].lhT = math.MinInt64
+		outputValues[i].rhT = math.MinInt64
 	}
 	return &table{
 		pool: pool,
